@@ -235,6 +235,17 @@ pub fn run_c01_auth(out: &mut Out, tier: &str, rng: &mut Rng) {
         if rng.chance(1, 2) {
             drivers.push(DriverCfg { da: 0x12, sa: None, timeout: Some(0), vendor: "laixer".into(), product: "vcu".into() });
         }
+        // the other units of the shipped network share the bus (and must not share anything else) with the hydraulic unit:
+        // the engine driver, which stores ITS commands, and any other known unit
+        if rng.chance(1, 2) {
+            drivers.push(DriverCfg { da: 0x00, sa: Some(0x11), timeout: *rng.pick(&[None, Some(3_600_000u64)]), vendor: "volvo".into(), product: "d7e".into() });
+        }
+        if rng.chance(1, 3) {
+            let d = known_driver(rng, None);
+            if !drivers.iter().any(|x: &DriverCfg| x.da == d.da) {
+                drivers.push(d);
+            }
+        }
         let cfg = NetCfg { address: 0x27, name: default_name(), drivers };
         let mut rig = match Rig::new(&cfg) {
             Ok(r) => r,
@@ -270,7 +281,7 @@ pub fn run_c01_auth(out: &mut Out, tier: &str, rng: &mut Rng) {
                     let raw = raw_of(make_id(6, *rng.pick(&[65288u32, 61444, 45824, 40960]), 0x27, *rng.pick(&[0x99u8, 0x27, 0x4B])), &[rng.byte(), rng.byte(), rng.byte(), rng.byte(), 0, 0, 0, 0]);
                     h.frame(&raw);
                 }
-                6 => h.engine(&Engine { driver_demand: 0, actual_engine: 0, rpm: 1000, state: EngineState::Request }),
+                6 => h.engine(&Engine { driver_demand: 0, actual_engine: 0, rpm: *rng.pick(&[0u16, 1000, 1500, 2300]), state: *rng.pick(&[EngineState::Request, EngineState::NoRequest]) }),
                 _ => h.cycle(),
             }
         }
@@ -453,6 +464,52 @@ pub fn run_c06_requests(out: &mut Out, tier: &str, rng: &mut Rng) {
     run_request_pages(out, tier, rng);
 }
 
+/// Every parameter group any driver (or the authority) inspects, from EVERY source address 0..=255 (the null and the global
+/// address included), to the own address and to the broadcast address, through the real NetworkAuthority with the shipped set
+/// of units; a cycle now and then.  (The driver-level sweeps already cover all sources; this one covers what the authority
+/// itself does with a frame before and after the drivers see it.)
+pub fn run_c06_sources(out: &mut Out, _tier: &str, rng: &mut Rng) {
+    let cfg = NetCfg {
+        address: 0x27,
+        name: default_name(),
+        drivers: vec![
+            DriverCfg { da: 0x4A, sa: None, timeout: Some(3_600_000), vendor: "laixer".into(), product: "hcu".into() },
+            DriverCfg { da: 0x12, sa: None, timeout: None, vendor: "laixer".into(), product: "vcu".into() },
+            DriverCfg { da: 0x00, sa: Some(0x11), timeout: None, vendor: "volvo".into(), product: "d7e".into() },
+            DriverCfg { da: 0x7A, sa: None, timeout: None, vendor: "kübler".into(), product: "inclinometer".into() },
+            DriverCfg { da: 0x6B, sa: None, timeout: None, vendor: "kübler".into(), product: "encoder".into() },
+        ],
+    };
+    let mut all: Vec<[u8; 16]> = vec![];
+    for pgn in crate::drv::PGNS {
+        for src in 0..=255u8 {
+            let dest = if src % 2 == 0 { 0xFFu8 } else { 0x27 };
+            let mut data = [0u8; 8];
+            for b in data.iter_mut() {
+                *b = match rng.below(4) { 0 => 0xFF, 1 => 0, _ => rng.byte() };
+            }
+            all.push(raw_of(make_id(6, pgn, dest, src), &data));
+        }
+    }
+    for part in all.chunks(1536) {
+        let mut rig = Rig::new(&cfg).expect("authority");
+        let mut h = Hist { rig: &mut rig, ins: vec![], outs: vec![] };
+        h.setup();
+        h.cycle();
+        for (i, raw) in part.iter().enumerate() {
+            h.frame(raw);
+            if i % 256 == 255 {
+                h.cycle();
+            }
+        }
+        h.motion(&Motion::StopAll);
+        h.cycle();
+        let (ins, outs) = (h.ins.join(" "), h.outs.join(" "));
+        out.case(&format!("auth {} {}", cfg.tok(), ins), &outs, true);
+        out.count("every inspected group from every source address 0..255 through the authority");
+    }
+}
+
 /// Requests to the own address at a coarser grain but over ALL data pages and third-byte values: every PDU2 number and every
 /// PDU1 format on pages 0..3; the served groups (and neighbours) with every value of the third request byte (the bits above
 /// the 18-bit number included); the same cut to 2, 1 and 0 data bytes (0xFF padding takes the place of the missing bytes).
@@ -536,6 +593,27 @@ pub fn run_c16_auth(out: &mut Out, tier: &str, rng: &mut Rng) {
                 h.cycle();
                 h.motion(&fmt::rand_motion(rng));
                 h.motion(&fmt::rand_motion(rng));
+            }
+        }
+        // bus traffic before the request: what the units send, and the same frames cut short (DLC 0..7) - the receive
+        // task is the one that runs the teardown, so whatever it received it must still be there to run it
+        if rep % 2 == 1 && !cfg.drivers.is_empty() {
+            for _ in 0..(1 + rng.below(5)) {
+                let d = rng.pick(&cfg.drivers).clone();
+                let full = if rng.chance(1, 4) {
+                    let req = *rng.pick(&[60928u32, 65242, 65254]);
+                    raw_of(make_id(6, 59904, 0x27, 0x10), &[(req & 0xFF) as u8, (req >> 8) as u8, (req >> 16) as u8, 0xFF, 0xFF, 0xFF, 0xFF, 0xFF])
+                } else if rng.chance(1, 3) {
+                    raw_of(make_id(6, *rng.pick(&[45824u32, 45312, 40960, 41216]), *rng.pick(&[d.da, 0xFF]), 0x27), &[0x5A, 0x43, 0xFF, 0, 0xFF, 0xFF, 0xFF, 0xFF])
+                } else {
+                    frame_from_unit(rng, &d)
+                };
+                let id = u32::from_le_bytes([full[0], full[1], full[2], full[3]]);
+                let k = rng.below(9) as usize;
+                let mut data = [0u8; 8];
+                data[..k].copy_from_slice(&full[8..8 + k]);
+                h.frame(&crate::bus::Bus::raw(id, k as u8, &data));
+                out.count(&format!("frame before the request, dlc={}", k));
             }
         }
         h.teardown();
